@@ -32,8 +32,8 @@ std::string prop_generate(Tape & t, int size) {
     int64_t total = nblocks * spd + (t.chance(1, 2) ? 0 : t.range(-spd + 1, spd - 1));
     if (total < 1) total = 1;
     if (total > 40000) total = 40000;
-    Pattern pat = small ? gen_pattern(t, *dt, {"blocks", "blocks", "spike", "spike", "const", "small"}, sd.spd) : gen_pattern(t, *dt, {"random", "ramp", "blocks", "const", "small"}, sd.spd);
-    if (pat.kind == "blocks" || pat.kind == "spike") pat.p1 = spd;            // constant runs aligned with the storage blocks
+    Pattern pat = small ? gen_pattern(t, *dt, {"blocks", "blocks", "spike", "spike2", "spike2", "const", "small"}, sd.spd) : gen_pattern(t, *dt, {"random", "ramp", "blocks", "const", "small"}, sd.spd);
+    if (pat.kind == "blocks" || pat.kind == "spike" || pat.kind == "spike2") pat.p1 = spd;            // constant runs aligned with the storage blocks
     if (small && t.chance(1, 3)) pat.p1 = spd * 2;
     std::vector<uint32_t> parts = gen_partition(t, total, sd.spd, 20);
     int64_t written = 0;
